@@ -1,1 +1,1 @@
-CONSTANTS Mtus = {2, 3, 4, 5, 8, 16, 130, 200} Stride = 41 HdrStride = 53
+CONSTANTS Mtus = {2, 3, 4, 5, 8, 16, 130, 200} Stride = 83 HdrStride = 53
